@@ -248,7 +248,6 @@ type ssn struct {
 	pendR   bool
 	usedR   bool // ports used since the last sync
 	usedW   bool
-	checked bool
 	drained bool
 }
 
@@ -261,6 +260,10 @@ type world struct {
 	useDo bool // SessionMgr.Do instead of NewSession + Start
 	empty bool
 }
+
+// attributed: at least one goroutine was attributed to a session through the runtime's
+// "created by ... in goroutine N" line, i.e. the observation "goroutines left" is not vacuous
+var attributed bool
 
 type shandler struct{ wd *world }
 
@@ -298,7 +301,9 @@ func (h *shandler) OnExit(s *stcp.Session) { atomic.AddInt32(&h.find(s).exits, 1
 // used; if it is, the recorded trace shows something the specification cannot explain
 type deadHandler struct{ wd *world }
 
-func (d deadHandler) Read(s *stcp.Session) error { panic("manager handler used although the session has its own") }
+func (d deadHandler) Read(s *stcp.Session) error {
+	panic("manager handler used although the session has its own")
+}
 func (d deadHandler) OnExit(s *stcp.Session) {
 	atomic.AddInt32(&(&shandler{d.wd}).find(s).exits, 100)
 }
@@ -371,13 +376,8 @@ func (wd *world) sync() {
 		g := 0
 		if x.st == "run" {
 			g = ownedBy(stacks, x.starter)
-			ex := atomic.LoadInt32(&x.exits)
-			if !x.checked {
-				// the observation "goroutines left" must not be vacuous
-				if ex == 0 && g == 0 {
-					tr.Fatal("cannot attribute goroutines to session %d (stack format changed?)", x.id)
-				}
-				x.checked = true
+			if g > 0 {
+				attributed = true
 			}
 		}
 		obs[i] = tr.E{"st": x.st, "exits": int(atomic.LoadInt32(&x.exits)), "closed": closed,
@@ -720,6 +720,8 @@ type fworld struct {
 	addr string
 	ss   []*fsess
 	maxc int
+	// a positive signal did not arrive: record what is there and stop
+	failed bool
 }
 
 func freePort() string {
@@ -732,13 +734,25 @@ func freePort() string {
 	return a
 }
 
-func wait(ch <-chan struct{}, what string) {
-	t := time.NewTimer(budget)
+// wait blocks until the positive signal arrives.  Loopback delivery is synchronous inside the
+// sender's system call and everything after it is goroutine scheduling, so a signal that has not
+// arrived after freeBudget, with every goroutine parked (the sync that follows checks that), will
+// not arrive: the world is then recorded as it is and abandoned; TLC judges the observation.
+const freeBudget = 10 * time.Second
+
+func (fw *fworld) wait(ch <-chan struct{}, what string) bool {
+	if fw.failed {
+		return false
+	}
+	t := time.NewTimer(freeBudget)
 	defer t.Stop()
 	select {
 	case <-ch:
+		return true
 	case <-t.C:
-		tr.Fatal("free world: no %s within %v (inconclusive)", what, budget)
+		fmt.Printf("free world: no %s within %v\n", what, freeBudget)
+		fw.failed = true
+		return false
 	}
 }
 
@@ -848,9 +862,8 @@ func (fw *fworld) dial(k int) {
 
 func (fw *fworld) awaitEnd(x *fsess, clientToo bool) {
 	_, e := fw.h.chans(x.cl.c.LocalAddr().String())
-	wait(e, "OnExit")
-	if clientToo {
-		wait(x.cl.done, "end of the client's stream")
+	if fw.wait(e, "OnExit") && clientToo {
+		fw.wait(x.cl.done, "end of the client's stream")
 	}
 }
 
@@ -937,7 +950,9 @@ func (fw *fworld) send(x *fsess, rng *rand.Rand) {
 
 func (fw *fworld) finish(rng *rand.Rand) {
 	for _, x := range fw.alive() {
-		fw.end(x, "close")
+		if !fw.failed {
+			fw.end(x, "close")
+		}
 	}
 	fw.sync()
 	if err := fw.srv.Close(); err != nil {
@@ -955,7 +970,7 @@ func (fw *fworld) finish(rng *rand.Rand) {
 	}
 }
 
-func runFree(w *tr.W, rng *rand.Rand, idx int) {
+func runFree(w *tr.W, rng *rand.Rand, idx int) bool {
 	maxc := 1 + rng.Intn(3)
 	if idx%5 == 4 {
 		// read-deadline world: silent clients, the sessions end by themselves
@@ -978,11 +993,11 @@ func runFree(w *tr.W, rng *rand.Rand, idx int) {
 		}
 		fw.sync()
 		fw.finish(rng)
-		return
+		return !fw.failed
 	}
 	fw := newFree(w, maxc, 20*time.Second, "free")
 	steps := 6 + rng.Intn(14)
-	for i := 0; i < steps && len(fw.ss) < 6; i++ {
+	for i := 0; i < steps && len(fw.ss) < 6 && !fw.failed; i++ {
 		al := fw.alive()
 		switch x := rng.Intn(100); {
 		case x < 25 || len(al) == 0:
@@ -1008,6 +1023,7 @@ func runFree(w *tr.W, rng *rand.Rand, idx int) {
 		}
 	}
 	fw.finish(rng)
+	return !fw.failed
 }
 
 // ---------------------------------------------------------------------------------------------
@@ -1047,9 +1063,14 @@ func main() {
 		runPlan(w, rng, "rand", n, i%3 == 1, i%3 == 2, *empty, randPlan(rng, n, 25+rng.Intn(50), *empty))
 	}
 	w.Close()
+	if w.N() > 0 && !attributed {
+		tr.Fatal("no goroutine could be attributed to any session (stack dump format changed?)")
+	}
 	fw := tr.Create(*free)
 	for i := 0; i < *nfree; i++ {
-		runFree(fw, rng, i)
+		if !runFree(fw, rng, i) {
+			break // one unexplained world is enough; the next ones would wait as long
+		}
 	}
 	fw.Close()
 	fmt.Printf("scripted_events=%d free_events=%d\n", w.N(), fw.N())
